@@ -3,8 +3,24 @@
 // receiver-side frames for a stream it may only send on) is answered with STREAM_STATE_ERROR; a
 // peer-initiated id beyond the advertised count with STREAM_LIMIT_ERROR; the two are never
 // confused. The REAL `DataStreams::recv_data` / `recv_stream_control` are run on a DataStreams
-// that holds no streams, for every 62-bit stream id, both local roles, every stream-related
-// frame type, arbitrary advertised stream counts.
+// that holds no streams, for every 62-bit stream id (so: every initiator / direction / index),
+// both local roles, every stream-related frame type, arbitrary advertised stream counts.
+//
+// CUT (measured: without it not even the error-only path of one frame kind with concrete role and
+// direction finishes in 400 s): `StreamId::role()/dir()` test bits of a symbolic u64, so symbolic
+// execution walks BOTH sides of every role/direction guard, and the peer-initiated side ends in
+// `DataStreams::try_accept_sid` -> `try_accept_{bi,uni}_sid`, which creates the Outgoing/Incoming
+// halves (ArcSender/ArcRecver, BTreeMap/HashMap inserts, listener queue, wakers) of every stream
+// from the cursor up to the id. That function is stubbed by `stub_try_accept`, which
+//   * records that the accept path was taken, and with which id,
+//   * runs the REAL limit test and cursor update (`ArcRemoteStreamIds::try_accept_sid`, the only
+//     fallible step of the original) and returns its verdict,
+//   * does not create the stream objects.
+// Hence what is decided here is exactly the guard: f(frame kind, local role, sid) ->
+// {STREAM_STATE_ERROR, accept path (then STREAM_LIMIT_ERROR iff the real limit test says so),
+// local path}. What is lost: the creation loop itself ("each implicitly opened stream is handed to
+// the listener exactly once") is only covered at the id level (c12_need_create_step,
+// c12_remote_accept_enumerates in qbase).
 use qbase::{
     frame::{
         FrameType, MaxStreamDataFrame, StopSendingFrame, StreamDataBlockedFrame,
@@ -19,6 +35,8 @@ use super::*;
 struct Sink;
 
 static mut SENT: u32 = 0;
+static mut ACCEPT_CALLS: u32 = 0;
+static mut ACCEPT_SID: u64 = 0;
 
 impl SendFrame<StreamCtlFrame> for Sink {
     fn send_frame<I: IntoIterator<Item = StreamCtlFrame>>(&self, iter: I) {
@@ -34,6 +52,34 @@ fn stub_fmt(_args: core::fmt::Arguments<'_>) -> String {
 
 fn stub_write(_o: &mut dyn core::fmt::Write, _a: core::fmt::Arguments<'_>) -> core::fmt::Result {
     Ok(())
+}
+
+/// std::sync::Mutex::lock without the futex slow path (NOTES-tracing.md): single-threaded harness,
+/// a lock that is not immediately available is a self-deadlock of the real code and is reported.
+fn stub_lock<T: ?Sized>(m: &std::sync::Mutex<T>) -> std::sync::LockResult<std::sync::MutexGuard<'_, T>> {
+    match m.try_lock() {
+        Ok(g) => Ok(g),
+        Err(std::sync::TryLockError::Poisoned(p)) => Err(p),
+        Err(std::sync::TryLockError::WouldBlock) => panic!("self-deadlock: mutex already held"),
+    }
+}
+
+/// Stub for `DataStreams::try_accept_sid` (see the header): real limit test, no stream creation.
+fn stub_try_accept<TX>(ds: &DataStreams<TX>, sid: StreamId) -> Result<(), ExceedLimitError>
+where
+    TX: SendFrame<StreamCtlFrame> + Clone + Send + 'static,
+{
+    unsafe {
+        ACCEPT_CALLS += 1;
+        ACCEPT_SID = VarInt::from(sid).into_u64();
+    }
+    match ds.stream_ids.remote.try_accept_sid(sid) {
+        Ok(a) => {
+            core::mem::forget(a);
+            Ok(())
+        }
+        Err(e) => Err(e),
+    }
 }
 
 fn any_role() -> Role {
@@ -74,15 +120,18 @@ fn empty_streams(role: Role, peer_bi: u64, peer_uni: u64) -> DataStreams<Sink> {
 }
 
 /// One frame of KIND (0 STREAM, 1 RESET_STREAM, 2 STOP_SENDING, 3 MAX_STREAM_DATA,
-/// 4 STREAM_DATA_BLOCKED) for the stream (initiator, dir, symbolic index) delivered to a fresh
-/// DataStreams of role `role`. Roles/directions are concrete per call so that symbolic execution
-/// only walks the guard that is being decided (a symbolic role/direction makes CBMC walk the
-/// whole stream-creation path, which does not finish).
-fn deliver<const KIND: u8>(role: Role, initiator: Role, dir: Dir) -> Verdict {
-    let ds = empty_streams(role, 0, 0);
-    let id: u64 = kani::any();
-    kani::assume(id < (1u64 << 60));
-    let sid = StreamId::new(initiator, dir, id);
+/// 4 STREAM_DATA_BLOCKED) for an ARBITRARY 62-bit stream id, delivered to a fresh DataStreams of
+/// arbitrary role that advertised arbitrary stream counts. `uncreated_local_is_error` selects the
+/// RFC's additional rule for locally initiated streams that were never opened (pending harness).
+fn guard_step<const KIND: u8>(uncreated_local_is_error: bool) {
+    let role = any_role();
+    let adv_bi: u64 = kani::any();
+    let adv_uni: u64 = kani::any();
+    kani::assume(adv_bi <= (1u64 << 60) && adv_uni <= (1u64 << 60));
+    let ds = empty_streams(role, adv_bi, adv_uni);
+    let raw: u64 = kani::any();
+    kani::assume(raw <= VARINT_MAX);
+    let sid = StreamId::from(VarInt::from_u64(raw).unwrap());
     let v = VarInt::from_u32(0);
     let res: Result<usize, QuicError> = match KIND {
         0 => ds.recv_data((StreamFrame::new(sid, 0, 0), Bytes::new())),
@@ -100,7 +149,7 @@ fn deliver<const KIND: u8>(role: Role, initiator: Role, dir: Dir) -> Verdict {
     };
     let got = match &res {
         Ok(n) => {
-            assert!(*n == 0);
+            assert!(*n == 0, "no stream exists: nothing is delivered");
             Verdict::Accepted
         }
         Err(e) => {
@@ -112,54 +161,72 @@ fn deliver<const KIND: u8>(role: Role, initiator: Role, dir: Dir) -> Verdict {
             }
         }
     };
-    assert!(unsafe { SENT } == 0);
+    let calls = unsafe { ACCEPT_CALLS };
+    let called_with = unsafe { ACCEPT_SID };
+
+    // ---- oracle: RFC 9000 sections 2.1, 4.6, 19.4, 19.5, 19.8, 19.10, 19.13 -----------------
+    let local = (raw & 1) == (role as u64); // initiated by this endpoint
+    let uni = (raw & 2) != 0;
+    let index = raw >> 2;
+    let adv = if uni { adv_uni } else { adv_bi };
+    // frames only the SENDER of stream data may send: STREAM, RESET_STREAM, STREAM_DATA_BLOCKED
+    let sender_frame = KIND == 0 || KIND == 1 || KIND == 4;
+    // the peer may send data on: its own streams (both kinds) and our bidirectional ones;
+    // the peer may receive data on: our streams (both kinds) and its bidirectional ones
+    let wrong_direction = if sender_frame { local && uni } else { !local && uni };
+    let accept_path = !wrong_direction && !local;
+    // (index == advertised count: suspected defect #10 of the limit test, see c12_remote_accept_step_boundary)
+    kani::assume(!(accept_path && index == adv));
+    let expect = if wrong_direction {
+        Verdict::StreamState
+    } else if accept_path && index > adv {
+        Verdict::StreamLimit
+    } else if uncreated_local_is_error && local {
+        Verdict::StreamState
+    } else {
+        Verdict::Accepted
+    };
+    assert!(got == expect, "STREAM_STATE_ERROR iff the peer is not entitled to send this frame on this stream; STREAM_LIMIT_ERROR iff peer-initiated beyond the advertised count; else accepted");
+    assert!(calls == accept_path as u32 && (!accept_path || called_with == raw),
+        "the accept path (implicit opening) is entered exactly once, with this id, iff the stream is peer-initiated and the frame is allowed on it");
+    assert!(unsafe { SENT } == 0, "nothing is emitted");
+    kani::cover!(got == Verdict::StreamState && local, "wrong direction on a locally initiated stream");
+    kani::cover!(got == Verdict::StreamState && !local, "wrong direction on a peer-initiated stream");
+    kani::cover!(got == Verdict::StreamLimit && uni, "beyond the advertised count (uni)");
+    kani::cover!(got == Verdict::StreamLimit && !uni, "beyond the advertised count (bidi)");
+    kani::cover!(got == Verdict::Accepted && !local && index > 0, "peer-initiated within the count");
+    kani::cover!(got == Verdict::Accepted && local, "locally initiated, right direction");
     core::mem::forget(res);
     core::mem::forget(ds);
-    got
-}
-
-/// Frames only the stream's SENDER may send (STREAM, RESET_STREAM, STREAM_DATA_BLOCKED), RFC 9000
-/// §19.4/§19.8/§19.13: on a locally initiated unidirectional stream (only we can send)
-/// -> STREAM_STATE_ERROR; on a locally initiated bidirectional stream -> accepted.
-/// Every stream index, both local roles.
-fn sender_frame_guard<const KIND: u8>() {
-    assert!(deliver::<KIND>(Role::Client, Role::Client, Dir::Uni) == Verdict::StreamState);
-    assert!(deliver::<KIND>(Role::Server, Role::Server, Dir::Uni) == Verdict::StreamState);
-    assert!(deliver::<KIND>(Role::Client, Role::Client, Dir::Bi) == Verdict::Accepted);
-    assert!(deliver::<KIND>(Role::Server, Role::Server, Dir::Bi) == Verdict::Accepted);
-    kani::cover!(true, "all four role/direction combinations decided");
-}
-
-/// Frames only the stream's RECEIVER may send (STOP_SENDING, MAX_STREAM_DATA), RFC 9000
-/// §19.5/§19.10: on a peer-initiated unidirectional stream (only the peer can send)
-/// -> STREAM_STATE_ERROR; on any locally initiated stream -> accepted.
-fn receiver_frame_guard<const KIND: u8>() {
-    assert!(deliver::<KIND>(Role::Client, Role::Server, Dir::Uni) == Verdict::StreamState);
-    assert!(deliver::<KIND>(Role::Server, Role::Client, Dir::Uni) == Verdict::StreamState);
-    assert!(deliver::<KIND>(Role::Client, Role::Client, Dir::Uni) == Verdict::Accepted);
-    assert!(deliver::<KIND>(Role::Server, Role::Server, Dir::Uni) == Verdict::Accepted);
-    assert!(deliver::<KIND>(Role::Client, Role::Client, Dir::Bi) == Verdict::Accepted);
-    assert!(deliver::<KIND>(Role::Server, Role::Server, Dir::Bi) == Verdict::Accepted);
-    kani::cover!(true, "all six role/direction combinations decided");
 }
 
 macro_rules! dir_harness {
-    ($name:ident, $f:ident, $k:expr) => {
+    ($name:ident, $k:expr, $strict:expr) => {
         #[kani::proof]
         #[kani::unwind(6)]
         #[kani::stub(std::fmt::format, stub_fmt)]
         #[kani::stub(core::fmt::write, stub_write)]
+        #[kani::stub(std::sync::Mutex::lock, stub_lock)]
+        #[kani::stub(DataStreams::try_accept_sid, stub_try_accept)]
         fn $name() {
-            $f::<$k>();
+            guard_step::<$k>($strict);
         }
     };
 }
 
-dir_harness!(c12_direction_stream, sender_frame_guard, 0);
-dir_harness!(c12_direction_reset_stream, sender_frame_guard, 1);
-dir_harness!(c12_direction_stream_data_blocked, sender_frame_guard, 4);
-dir_harness!(c12_direction_stop_sending, receiver_frame_guard, 2);
-dir_harness!(c12_direction_max_stream_data, receiver_frame_guard, 3);
+dir_harness!(c12_direction_stream, 0, false);
+dir_harness!(c12_direction_reset_stream, 1, false);
+dir_harness!(c12_direction_stop_sending, 2, false);
+dir_harness!(c12_direction_max_stream_data, 3, false);
+dir_harness!(c12_direction_stream_data_blocked, 4, false);
+
+// pending (outside the statement of C12, observed while writing the oracle): RFC 9000 section 19.8 "An
+// endpoint MUST terminate the connection with error STREAM_STATE_ERROR if it receives a STREAM
+// frame for a locally initiated stream that has not yet been created", same in 19.5 (STOP_SENDING)
+// and 19.10 (MAX_STREAM_DATA). The guards only look at role/direction: such frames are silently
+// accepted (here: no stream was ever opened locally).
+dir_harness!(c12_direction_pending_uncreated_local_stream, 0, true);
+dir_harness!(c12_direction_pending_uncreated_local_max_stream_data, 3, true);
 
 /// A peer-initiated id beyond the advertised count: the `ExceedLimitError` produced by the real
 /// `ArcRemoteStreamIds::try_accept_sid` is mapped by `wrapper_error` to STREAM_LIMIT_ERROR
